@@ -20,6 +20,10 @@
 //! nearest of the nominal levels 0, .33, .66, 1 (inline literal of the source, not readable through an
 //! add-only hook: recorded as an assumption) and must not decrease when `luma()` increases (order only).
 //! TrueColor: parameters are exactly `r;g;b`; every role carries its own selector.
+//!
+//! Terminal glue (module `glue`): the real terminal object on a pty, constructed on every detection path of
+//! `capabilities_detect`; its output for Face / FaceModify is judged and compared with the model at the depth
+//! it reports through `capabilities().depth`.
 use serde_json::{Value, json};
 use std::collections::HashSet;
 use surf_n_term::encoder::{ColorDepth, Encoder, TTYEncoder, verif_c20};
@@ -244,35 +248,253 @@ fn canon(buf: &[u8], p: &Option<Vec<u32>>) -> String {
     }
 }
 
+enum Backend {
+    /// a `TTYEncoder` of its own
+    Plain(TTYEncoder),
+    /// bytes a real terminal object put on its pty for the same sequence of commands (see `glue`)
+    Canned(std::collections::VecDeque<Vec<u8>>),
+}
+
 struct Enc {
-    enc: TTYEncoder,
+    be: Backend,
     buf: Vec<u8>,
 }
 
 impl Enc {
     fn new(depth: ColorDepth) -> Enc {
-        Enc { enc: TTYEncoder::new(TerminalCaps { depth, ..TerminalCaps::default() }), buf: Vec::with_capacity(64) }
+        Enc { be: Backend::Plain(TTYEncoder::new(TerminalCaps { depth, ..TerminalCaps::default() })), buf: Vec::with_capacity(64) }
+    }
+    fn canned(segments: Vec<Vec<u8>>) -> Enc {
+        Enc { be: Backend::Canned(segments.into()), buf: Vec::new() }
     }
     /// encode `cmd`; `None` = panic or error
     fn run(&mut self, cmd: TerminalCommand) -> Option<Vec<u32>> {
         self.buf.clear();
-        let (enc, buf) = (&mut self.enc, &mut self.buf);
-        match guarded(|| enc.encode(&mut *buf, cmd)) {
-            Ok(Ok(())) => params(&self.buf),
-            _ => {
-                self.buf.clear();
-                self.buf.extend_from_slice(b"panic-or-error");
-                None
+        match &mut self.be {
+            Backend::Plain(enc) => {
+                let buf = &mut self.buf;
+                match guarded(|| enc.encode(&mut *buf, cmd)) {
+                    Ok(Ok(())) => params(&self.buf),
+                    _ => {
+                        self.buf.clear();
+                        self.buf.extend_from_slice(b"panic-or-error");
+                        None
+                    }
+                }
             }
+            Backend::Canned(q) => match q.pop_front() {
+                Some(seg) if seg != glue::ERROR_SEGMENT => {
+                    self.buf = seg;
+                    params(&self.buf)
+                }
+                _ => {
+                    self.buf.extend_from_slice(b"panic-or-error");
+                    None
+                }
+            },
         }
     }
     fn role(&mut self, c: RGBA, role: usize) -> Option<Vec<u32>> {
-        let fm = match role {
-            0 => FaceModify { fg: Some(c), ..FaceModify::default() },
-            1 => FaceModify { bg: Some(c), ..FaceModify::default() },
-            _ => FaceModify { underline_color: Some(c), ..FaceModify::default() },
+        self.run(role_cmd(c, role))
+    }
+}
+
+fn role_cmd(c: RGBA, role: usize) -> TerminalCommand {
+    let fm = match role {
+        0 => FaceModify { fg: Some(c), ..FaceModify::default() },
+        1 => FaceModify { bg: Some(c), ..FaceModify::default() },
+        _ => FaceModify { underline_color: Some(c), ..FaceModify::default() },
+    };
+    TerminalCommand::FaceModify(fm)
+}
+
+/// Terminal glue: the real terminal object (`SystemTerminal::new_from_fd`) on a pseudo terminal.  The encoder
+/// that writes the colours lives inside the terminal and is configured by `capabilities_detect` from the
+/// environment (`TERM`, `COLORTERM`) and from the answers of the terminal emulator; `capabilities().depth` is
+/// what the library reports.  A peer thread plays the emulator: it answers DA1 (`ESC [ c`) and, if the session
+/// asks for it, the true-colour probe (DECRQSS `ESC P $ q m ESC \\`).  Timing never produces a failure:
+/// a session whose output does not arrive is inconclusive.
+mod glue {
+    use std::io::Write;
+    use std::os::fd::{FromRawFd, OwnedFd, RawFd};
+    use std::sync::atomic::{AtomicBool, Ordering};
+    use std::sync::{Arc, Mutex};
+    use std::time::{Duration, Instant};
+    use surf_n_term::encoder::ColorDepth;
+    use surf_n_term::{SystemTerminal, Terminal, TerminalCommand};
+
+    pub const ERROR_SEGMENT: &[u8] = b"\x1dERR";
+    const START: &[u8] = b"\x1dS";
+    const SEP: &[u8] = b"\x1e";
+    const END: &[u8] = b"\x1dE";
+
+    #[derive(Clone, Copy)]
+    pub struct Plan {
+        pub name: &'static str,
+        pub term: &'static str,
+        pub colorterm: Option<&'static str>,
+        /// the emulator confirms the true-colour probe
+        pub answer_truecolor: bool,
+    }
+
+    pub const PLANS: [Plan; 5] = [
+        Plan { name: "TERM=dumb", term: "dumb", colorterm: None, answer_truecolor: false },
+        Plan { name: "TERM=linux", term: "linux", colorterm: None, answer_truecolor: false },
+        Plan { name: "TERM=xterm-256color", term: "xterm-256color", colorterm: None, answer_truecolor: false },
+        Plan { name: "TERM=xterm-256color+DECRQSS", term: "xterm-256color", colorterm: None, answer_truecolor: true },
+        Plan { name: "TERM=xterm,COLORTERM=truecolor", term: "xterm", colorterm: Some("truecolor"), answer_truecolor: false },
+    ];
+
+    pub struct SessionOut {
+        pub reported: ColorDepth,
+        /// bytes put on the pty for each command, in order (`ERROR_SEGMENT` if `execute` failed)
+        pub segments: Vec<Vec<u8>>,
+    }
+
+    struct Shared {
+        received: Mutex<Vec<u8>>,
+        stop: AtomicBool,
+    }
+
+    fn open_pty() -> Result<(RawFd, RawFd), String> {
+        unsafe {
+            let master = libc::posix_openpt(libc::O_RDWR | libc::O_NOCTTY);
+            if master < 0 {
+                return Err("no-pty:posix_openpt".into());
+            }
+            if libc::grantpt(master) != 0 || libc::unlockpt(master) != 0 {
+                libc::close(master);
+                return Err("no-pty:grantpt".into());
+            }
+            let mut name = [0 as libc::c_char; 128];
+            if libc::ptsname_r(master, name.as_mut_ptr(), name.len()) != 0 {
+                libc::close(master);
+                return Err("no-pty:ptsname_r".into());
+            }
+            let slave = libc::open(name.as_ptr(), libc::O_RDWR | libc::O_NOCTTY);
+            if slave < 0 {
+                libc::close(master);
+                return Err("no-pty:open-slave".into());
+            }
+            let ws = libc::winsize { ws_row: 24, ws_col: 80, ws_xpixel: 0, ws_ypixel: 0 };
+            libc::ioctl(master, libc::TIOCSWINSZ, &ws);
+            let fl = libc::fcntl(master, libc::F_GETFL);
+            libc::fcntl(master, libc::F_SETFL, fl | libc::O_NONBLOCK);
+            Ok((master, slave))
+        }
+    }
+
+    fn find(hay: &[u8], needle: &[u8]) -> Option<usize> {
+        hay.windows(needle.len()).position(|w| w == needle)
+    }
+
+    /// the terminal emulator: record everything, answer the queries
+    fn peer(master: RawFd, shared: Arc<Shared>, truecolor: bool) {
+        const DA1: &[u8] = b"\x1b[c";
+        const PROBE: &[u8] = b"\x1bP$qm\x1b\\";
+        let mut buf = vec![0u8; 1 << 14];
+        let mut tail: Vec<u8> = Vec::new();
+        while !shared.stop.load(Ordering::SeqCst) {
+            let mut pfd = libc::pollfd { fd: master, events: libc::POLLIN, revents: 0 };
+            if unsafe { libc::poll(&mut pfd, 1, 20) } <= 0 {
+                continue;
+            }
+            let n = unsafe { libc::read(master, buf.as_mut_ptr() as *mut libc::c_void, buf.len()) };
+            if n <= 0 {
+                std::thread::sleep(Duration::from_millis(1)); // EIO while the slave is closed, EAGAIN
+                continue;
+            }
+            let data = &buf[..n as usize];
+            shared.received.lock().unwrap().extend_from_slice(data);
+            tail.extend_from_slice(data);
+            let mut replies: Vec<u8> = Vec::new();
+            let mut i = 0;
+            while i < tail.len() {
+                let rest = &tail[i..];
+                if rest.starts_with(DA1) {
+                    replies.extend_from_slice(b"\x1b[?62c");
+                    i += DA1.len();
+                } else if rest.starts_with(PROBE) {
+                    if truecolor {
+                        replies.extend_from_slice(b"\x1bP1$r48:2:1:2:3m\x1b\\");
+                    }
+                    i += PROBE.len();
+                } else if rest.len() < PROBE.len() && (DA1.starts_with(rest) || PROBE.starts_with(rest)) {
+                    break; // possibly the beginning of a query
+                } else {
+                    i += 1;
+                }
+            }
+            tail.drain(..i);
+            if !replies.is_empty() {
+                unsafe { libc::write(master, replies.as_ptr() as *const libc::c_void, replies.len()) };
+            }
+        }
+    }
+
+    /// One session: terminal constructed under `plan`, `cmds` executed, output collected per command.
+    /// `Err(why)`: the session cannot be judged (inconclusive).
+    pub fn session(plan: &Plan, cmds: &[TerminalCommand]) -> Result<SessionOut, String> {
+        let (master, slave) = open_pty()?;
+        let keep = unsafe { libc::dup(slave) }; // the pty must outlive the terminal
+        let shared = Arc::new(Shared { received: Mutex::new(Vec::new()), stop: AtomicBool::new(false) });
+        let thread = {
+            let shared = shared.clone();
+            let tc = plan.answer_truecolor;
+            std::thread::spawn(move || peer(master, shared, tc))
         };
-        self.run(TerminalCommand::FaceModify(fm))
+        // the environment decides which detection path runs (process-wide: sessions run one at a time)
+        unsafe {
+            std::env::set_var("TERM", plan.term);
+            match plan.colorterm {
+                Some(v) => std::env::set_var("COLORTERM", v),
+                None => std::env::remove_var("COLORTERM"),
+            }
+        }
+        let result = (|| -> Result<SessionOut, String> {
+            let mut term = SystemTerminal::new_from_fd(unsafe { OwnedFd::from_raw_fd(slave) })
+                .map_err(|e| format!("constructor:{e:?}"))?;
+            let reported = term.capabilities().depth;
+            let mut failed = vec![false; cmds.len()];
+            term.write_all(START).map_err(|e| format!("write:{e:?}"))?;
+            for (i, cmd) in cmds.iter().enumerate() {
+                let r = std::panic::catch_unwind(std::panic::AssertUnwindSafe(|| term.execute(cmd.clone())));
+                failed[i] = !matches!(r, Ok(Ok(())));
+                term.write_all(SEP).map_err(|e| format!("write:{e:?}"))?;
+            }
+            term.write_all(END).map_err(|e| format!("write:{e:?}"))?;
+            let t0 = Instant::now();
+            let body = loop {
+                term.poll(Some(Duration::from_millis(2))).map_err(|e| format!("poll-error:{e:?}"))?;
+                let rec = shared.received.lock().unwrap();
+                if let (Some(a), Some(b)) = (find(&rec, START), find(&rec, END)) {
+                    break rec[a + START.len()..b].to_vec();
+                }
+                drop(rec);
+                if t0.elapsed() > Duration::from_secs(10) {
+                    return Err("output-timeout".into());
+                }
+            };
+            drop(term); // epilogue + DA1, answered by the peer
+            let mut segments: Vec<Vec<u8>> = body.split(|c| *c == SEP[0]).map(|s| s.to_vec()).collect();
+            segments.pop(); // empty piece after the last separator
+            if segments.len() != cmds.len() {
+                return Err("segment-count".into());
+            }
+            for (i, f) in failed.iter().enumerate() {
+                if *f {
+                    segments[i] = ERROR_SEGMENT.to_vec();
+                }
+            }
+            Ok(SessionOut { reported, segments })
+        })();
+        shared.stop.store(true, Ordering::SeqCst);
+        let _ = thread.join();
+        unsafe {
+            libc::close(keep);
+            libc::close(master);
+        }
+        result
     }
 }
 
@@ -296,6 +518,10 @@ struct Ctx {
     // statistics
     rel_tol: f64,
     drift: f64,
+    glue: Option<(String, String)>,
+    glue_sessions: u64,
+    glue_inconclusive: u64,
+    glue_commands: u64,
     n_colors: u64,
     n_tie: u64,
     n_f32_subopt: u64,
@@ -318,6 +544,152 @@ struct Ctx {
 
 
 impl Ctx {
+    /// report an oracle failure; inside a terminal-glue session the input names the session
+    fn fail(&mut self, what: &str, mut input: Value, expected: Value, got: Value) {
+        match &self.glue {
+            Some((plan, reported)) => {
+                input["terminal"] = json!(plan);
+                input["terminal_reports"] = json!(reported);
+                let what = format!("terminal object on a pty ({plan}, capabilities().depth = {reported}): {what}");
+                self.out.fail(&what, input, expected, got);
+            }
+            None => self.out.fail(what, input, expected, got),
+        }
+    }
+
+    /// may this colour be used for correspondence lines under every depth (no decision within rounding)?
+    fn glue_ok(&self, c: [u8; 3]) -> bool {
+        let (_, t1, t2) = self.tab.best2(self.lin3(c[0], c[1], c[2]));
+        let l = RGBA::new(c[0], c[1], c[2], 255).luma() as f64;
+        t2 > t1 * (1.0 + TIE_REL) + 1e-13 && ![0.165f64, 0.495, 0.83].iter().any(|m| (l - m).abs() < 1e-5)
+    }
+
+    /// One terminal-glue session: the real terminal object on a pty under `plan`; every colour in the three
+    /// roles through `FaceModify`, every pair through `Face`.  The bytes the terminal puts on the pty are judged
+    /// and compared with the model exactly like the output of a stand-alone encoder of the depth the terminal
+    /// REPORTS (`capabilities().depth`).
+    fn glue_session(&mut self, plan: &glue::Plan, colours: &[[u8; 3]], pairs: &[(usize, usize)]) {
+        let rgba = |c: [u8; 3]| RGBA::new(c[0], c[1], c[2], 255);
+        let mut cmds: Vec<TerminalCommand> = Vec::new();
+        for c in colours {
+            for role in 0..3 {
+                cmds.push(role_cmd(rgba(*c), role));
+            }
+        }
+        for (f, b) in pairs {
+            cmds.push(TerminalCommand::Face(Face::new(Some(rgba(colours[*f])), Some(rgba(colours[*b])), FaceAttrs::EMPTY)));
+        }
+        // a session that cannot be judged is run again on its own; only if that fails too it is inconclusive
+        let mut res = glue::session(plan, &cmds);
+        for _ in 0..2 {
+            if res.is_ok() {
+                break;
+            }
+            std::thread::sleep(std::time::Duration::from_millis(300));
+            res = glue::session(plan, &cmds);
+        }
+        self.glue_sessions += 1;
+        let so = match res {
+            Ok(so) => so,
+            Err(why) => {
+                self.glue_inconclusive += 1;
+                self.out.hist(&format!("glue:inconclusive:{}", why.split(':').next().unwrap_or("?")));
+                return;
+            }
+        };
+        self.glue_commands += cmds.len() as u64;
+        let reported = match so.reported {
+            ColorDepth::EightBit => "8bit",
+            ColorDepth::Gray => "gray",
+            ColorDepth::TrueColor => "true",
+        };
+        self.out.hist(&format!("glue:{}:reports-{}", plan.name, reported));
+        self.glue = Some((plan.name.to_string(), reported.to_string()));
+        let n = colours.len() * 3;
+        let mut canned = Enc::canned(so.segments[..n].to_vec());
+        match so.reported {
+            ColorDepth::EightBit => std::mem::swap(&mut self.e8, &mut canned),
+            ColorDepth::Gray => std::mem::swap(&mut self.eg, &mut canned),
+            ColorDepth::TrueColor => std::mem::swap(&mut self.et, &mut canned),
+        }
+        for c in colours {
+            match so.reported {
+                ColorDepth::EightBit => {
+                    self.eight_bit(c[0], c[1], c[2], true);
+                }
+                ColorDepth::Gray => self.gray(c[0], c[1], c[2], true, false),
+                ColorDepth::TrueColor => self.true_color(c[0], c[1], c[2], true),
+            }
+        }
+        match so.reported {
+            ColorDepth::EightBit => std::mem::swap(&mut self.e8, &mut canned),
+            ColorDepth::Gray => std::mem::swap(&mut self.eg, &mut canned),
+            ColorDepth::TrueColor => std::mem::swap(&mut self.et, &mut canned),
+        }
+        // the Face command: `0`, then what the two roles gave on their own (judged above)
+        for (k, (f, b)) in pairs.iter().enumerate() {
+            let seg = &so.segments[n + k];
+            let whole = if seg.as_slice() == glue::ERROR_SEGMENT { None } else { params(seg) };
+            let got = canon(seg, &whole);
+            let want = match (params(&so.segments[3 * f]), params(&so.segments[3 * b + 1])) {
+                (Some(a), Some(bp)) => {
+                    let mut v = vec![0u32];
+                    v.extend(a);
+                    v.extend(bp);
+                    Some(v)
+                }
+                _ => None,
+            };
+            let (cf, cb) = (colours[*f], colours[*b]);
+            if want.is_none() || whole != want {
+                self.fail(
+                    "Face command does not carry the same colour parameters as the single-role commands (which the oracle judged)",
+                    json!({"depth": reported, "role": "face", "r": cf[0], "g": cf[1], "b": cf[2], "bg": cb}),
+                    json!(want),
+                    json!(got),
+                );
+            }
+            if let (Some(lf), Some(lb)) = (self.luma_int(rgba(cf).luma()), self.luma_int(rgba(cb).luma())) {
+                self.out.corr(
+                    &format!("c20 face {} {} {} {} {} {} {} {} {}", reported, cf[0], cf[1], cf[2], cb[0], cb[1], cb[2], lf, lb),
+                    &got,
+                );
+            }
+        }
+        self.glue = None;
+    }
+
+    /// the terminal-glue part: `rounds` sessions per plan with `n` colours each
+    fn glue_part(&mut self, rng: &mut Rng, rounds: usize, n: usize, only: Option<(&str, Vec<[u8; 3]>)>) {
+        if let Some((plan_name, colours)) = only {
+            for plan in glue::PLANS.iter().filter(|p| p.name == plan_name) {
+                let pairs: Vec<(usize, usize)> = (0..colours.len()).map(|i| (i, (i + 1) % colours.len())).collect();
+                self.glue_session(plan, &colours, &pairs);
+            }
+            return;
+        }
+        let fixed: [[u8; 3]; 12] = [
+            [0, 0, 0], [255, 255, 255], [0x28, 0x28, 0x28], [0x60, 0x50, 0x70], [0x20, 0xc0, 0x40], [0xeb, 0xdb, 0xb2],
+            [0x7f, 0x7f, 0x7f], [0xd4, 0xd4, 0xd4], [0x2a, 0x2a, 0x30], [0x00, 0xb1, 0x00], [0xff, 0x00, 0x00], [0x5f, 0x87, 0xaf],
+        ];
+        for round in 0..rounds {
+            for plan in glue::PLANS.iter() {
+                let mut colours: Vec<[u8; 3]> = if round == 0 { fixed.to_vec() } else { Vec::new() };
+                while colours.len() < n {
+                    colours.push([rng.below(256) as u8, rng.below(256) as u8, rng.below(256) as u8]);
+                }
+                colours.retain(|c| self.glue_ok(*c));
+                colours.truncate(n);
+                if colours.is_empty() {
+                    continue;
+                }
+                let pairs: Vec<(usize, usize)> =
+                    (0..colours.len()).map(|i| (i, rng.below(colours.len() as u64) as usize)).collect();
+                self.glue_session(plan, &colours, &pairs);
+            }
+        }
+    }
+
     fn lin3(&self, r: u8, g: u8, b: u8) -> [f32; 3] {
         [self.t.lin[r as usize], self.t.lin[g as usize], self.t.lin[b as usize]]
     }
@@ -353,7 +725,7 @@ impl Ctx {
         let c = LinColor::from(rgba);
         let input = json!({"depth": "8bit", "role": ROLES[role], "r": r, "g": g, "b": b});
         let Some(e) = self.std.entry_of(index) else {
-            self.out.fail(
+            self.fail(
                 "256-colour index outside the 240 non-system palette entries",
                 input,
                 json!("index in 16..=255"),
@@ -389,7 +761,7 @@ impl Ctx {
             }
         }
         if d_chosen > d_best * (1.0 + self.rel_tol) + 1e-7 {
-            self.out.fail(
+            self.fail(
                 if self.rel_tol == REL_TOL {
                     "256-colour palette entry is not the closest one (LinColor::distance, tolerance 1e-3)"
                 } else {
@@ -450,7 +822,7 @@ impl Ctx {
                     }
                 }
                 _ => {
-                    self.out.fail(
+                    self.fail(
                         "256-colour depth: SGR parameters are not `<38|48|58>;5;<index>` with the selector of the role",
                         json!({"depth": "8bit", "role": ROLES[role], "r": r, "g": g, "b": b}),
                         json!(format!("{};5;<index>", ROLE_CODE[role])),
@@ -505,7 +877,7 @@ impl Ctx {
             let want = vec![ROLE_CODE[role], 2, r as u32, g as u32, b as u32];
             let got = canon(&self.et.buf, &p);
             if p.as_ref() != Some(&want) {
-                self.out.fail(
+                self.fail(
                     "true-colour depth: colour is not transmitted unchanged",
                     json!({"depth": "true", "role": ROLES[role], "r": r, "g": g, "b": b}),
                     json!(format!("{};2;{};{};{}", ROLE_CODE[role], r, g, b)),
@@ -543,7 +915,7 @@ impl Ctx {
                     _ => None,
                 };
                 match level {
-                    None => self.out.fail(
+                    None => self.fail(
                         "grey depth: SGR parameter is not one of the four grey levels of the role",
                         json!({"depth": "gray", "role": ROLES[role], "r": r, "g": g, "b": b}),
                         json!(if role == 0 { "30|90|37|97" } else { "40|100|47|107" }),
@@ -556,7 +928,7 @@ impl Ctx {
                         }
                         if (le - GRAY_NOMINAL[lv]).abs() > nearest_d + 1e-6 {
                             let want = (0..4).find(|j| (le - GRAY_NOMINAL[*j]).abs() == nearest_d).unwrap_or(0);
-                            self.out.fail(
+                            self.fail(
                                 "grey depth: selected level is not the nearest of the four (0, .33, .66, 1) by the library's luma()",
                                 json!({"depth": "gray", "role": ROLES[role], "r": r, "g": g, "b": b}),
                                 json!({"level": want, "code": GRAY_CODES[want] + 10 * role as u32}),
@@ -624,7 +996,7 @@ impl Ctx {
                 _ => None,
             };
             if want.is_none() || whole != want {
-                self.out.fail(
+                self.fail(
                     "Face command does not carry the same colour parameters as the single-role commands (which the oracle judged)",
                     json!({"depth": name, "role": "face", "r": fg[0], "g": fg[1], "b": fg[2], "bg": bg}),
                     json!(want),
@@ -707,7 +1079,7 @@ impl Ctx {
                 for hi in lo + 1..4 {
                     let (a, b) = (self.gmax[role][lo], self.gmin[role][hi]);
                     if a.set && b.set && a.l > b.l {
-                        self.out.fail(
+                        self.fail(
                             "grey depth: level is not monotone in luma",
                             json!({"depth": "gray", "role": ROLES[role], "r": a.rgb[0], "g": a.rgb[1], "b": a.rgb[2],
                                    "other": b.rgb, "luma": f32::from_bits(a.l as u32), "other_luma": f32::from_bits(b.l as u32)}),
@@ -861,6 +1233,10 @@ fn main() {
         thorough: cfg.thorough,
         rel_tol,
         drift,
+        glue: None,
+        glue_sessions: 0,
+        glue_inconclusive: 0,
+        glue_commands: 0,
         n_colors: 0,
         n_tie: 0,
         n_f32_subopt: 0,
@@ -882,6 +1258,15 @@ fn main() {
     if let Some(rep) = &cfg.replay {
         let inp = &rep["failure"]["input"];
         let get = |v: &Value| v.as_u64().unwrap_or(0) as u8;
+        if let Some(plan) = inp["terminal"].as_str() {
+            let mut colours = vec![[get(&inp["r"]), get(&inp["g"]), get(&inp["b"])]];
+            for key in ["other", "bg"] {
+                if let Some(o) = inp[key].as_array().filter(|o| o.len() == 3) {
+                    colours.push([get(&o[0]), get(&o[1]), get(&o[2])]);
+                }
+            }
+            ctx.glue_part(&mut rng, 0, 0, Some((plan, colours)));
+        }
         ctx.colour(get(&inp["r"]), get(&inp["g"]), get(&inp["b"]));
         if let Some(o) = inp["other"].as_array() {
             if o.len() == 3 {
@@ -902,6 +1287,13 @@ fn main() {
 
     // 0. the private `nearest` on its own
     ctx.nearest_cases(&mut rng, if cfg.thorough { 60_000 } else { 6_000 });
+
+    // 0b. terminal glue: the real terminal object on a pty, for every detection path
+    if cfg.thorough {
+        ctx.glue_part(&mut rng, 8, 40, None);
+    } else {
+        ctx.glue_part(&mut rng, 1, 12, None);
+    }
 
     // 1. white-box corner cases: palette colours themselves, extremes, the Face path
     let mut corners: Vec<[u8; 3]> = Vec::new();
@@ -1013,6 +1405,8 @@ fn main() {
         "boundary_bytes_cube": bc,
         "boundary_bytes_greys": bg,
         "thorough": ctx.thorough,
+        "terminal_glue": {"sessions": ctx.glue_sessions, "inconclusive_sessions": ctx.glue_inconclusive, "commands": ctx.glue_commands,
+                          "plans": glue::PLANS.iter().map(|p| p.name).collect::<Vec<_>>()},
     });
     ctx.out.extra("c20", extra);
     ctx.out.finish(
